@@ -1,10 +1,10 @@
 META = {
- 'manifest': {'text': 'Bounded symbolic model checking of the real bytes-path readers on truncated / corrupted images: for each image kind and EVERY prefix length (one query each, length concrete, payload symbolic) the reader must throw and cbmc pointer checks show no byte outside an exact-size heap buffer is touched; for every preamble byte position a symbolic replacement value leads to an exception or a sketch whose getters and full iteration stay inside the buffer.',
+ 'manifest': {'text': 'Bounded symbolic model checking of the real bytes-path readers on truncated / corrupted images: for each image kind and EVERY prefix length (one query each, length concrete, payload symbolic) the reader must throw and cbmc pointer checks show no byte outside an exact-size heap buffer is touched; for every preamble byte position a symbolic replacement value leads to an exception or a sketch whose getters and full iteration stay inside the buffer. HLL family at the unit level only: the bytes reader of the HLL_4 auxiliary exception table (AuxHashMap::deserialize) rejects every table shorter than its header fields announce without touching a byte outside the buffer, and an accepted table holds exactly aux_count entries.',
               'note': 'images of serial version 3 come from the real serializer; legacy v1/v2 images are written by the harness from the documented layout; stream path, corruption beyond the preamble and leak balance outside the claim'},
- 'functions_encoded': ['compact_theta_sketch_parser::parse / check_memory_size', 'compact_theta_sketch_alloc::deserialize(bytes) / serialize(header)', 'wrapped_compact_theta_sketch_alloc::wrap + const_iterator', 'compute_seed_hash'],
+ 'functions_encoded': ['compact_theta_sketch_parser::parse / check_memory_size', 'compact_theta_sketch_alloc::deserialize(bytes) / serialize(header)', 'wrapped_compact_theta_sketch_alloc::wrap + const_iterator', 'compute_seed_hash', 'kll_sketch / quantiles_sketch / tdigest deserialize(bytes) (generic prefix harness)', 'AuxHashMap::deserialize(bytes, len, ...) + mustAdd (unit level)'],
  'bounds': 'theta: images with 0..2 entries, exact and estimation mode, serial versions 1,2,3; every prefix length 0..size-1; every preamble byte position with an arbitrary replacement byte',
  'stubs': [], 'assumes': ['image payload: ascending distinct non-zero hashes below theta'],
- 'outside': ['std::istream path', 'corruption beyond the preamble', 'compressed (serial version 4) images with symbolic payload', 'families other than those listed in bounds'],
+ 'outside': ['whole HLL / CPC / REQ / count-min / frequent-items images (no verdict)', 'AuxHashMap reader with symbolic header fields (concrete per query: lg_aux_arr_ints 2..3, aux_count 1..3)', 'std::istream path', 'corruption beyond the preamble', 'compressed (serial version 4) images with symbolic payload', 'families other than those listed in bounds'],
 }
 GENERIC = [('kllm', 'serde_kll', 2, 60, 20), ('kll', 'serde_kll', 0, 8, 12), ('kll', 'serde_kll', 1, 12, 12), ('kll', 'serde_kll', 2, 40, 12), ('kll', 'serde_kll', 3, 44, 12),
            ('qs', 'serde_qs', 0, 8, 12), ('qs', 'serde_qs', 1, 28, 12), ('qs', 'serde_qs', 3, 36, 12),
@@ -56,4 +56,9 @@ def queries(tier):
             if tier == 'quick' and not (m % 4 == 0 or m >= size - 1): continue
             qs.append(Q(f'{fam}_nv{nv}_trunc{m:03d}', tu, 'c11_prefix.c', defs=dict({'FAM': fam, 'NV': nv, 'SIZE': size, 'M': m}, **({'USE_HASHMODEL': None} if fam == 'cm' else {})), tu_defs=({'VERIF_STUB_HASH': None} if fam == 'cm' else {}), unwind=unw,
                         unwindset={'^harness$': 260, '^(verif_mem.*|verif_new.*|fnv.*|emit.*)$': 140}, timeout=(200 if tier == 'quick' else 900), native_vectors=50, c_defs={'VERIF_NEW_CAPN': (120 if fam == 'req' else 40)}, mem_gb=16))
+    # HLL family, unit level: bytes reader of the HLL_4 auxiliary exception table; header fields concrete per query (symbolic ones: no verdict), one symbolic pair
+    for (compact, lg, auxc, ln, nsym) in [(0, 2, 1, 0, 0), (0, 2, 1, 8, 1), (0, 2, 2, 12, 1), (0, 2, 1, 16, 1), (0, 3, 1, 16, 1), (0, 3, 2, 28, 1), (1, 2, 2, 0, 0), (1, 2, 2, 4, 1), (1, 2, 2, 8, 1), (1, 2, 3, 8, 1)]:
+        qs.append(Q(f'hll_aux_c{compact}_lg{lg}_n{auxc}_len{ln:02d}_s{nsym}', 'hll_aux', 'c11_hll_aux.c', defs={'COMPACT': compact, 'LGARR': lg, 'AUXC': auxc, 'LEN': ln, 'NSYM': nsym}, tu_defs={'__OPT': '-O1 -fno-inline-functions -fno-inline -fno-pic'},
+                    unwind=12, unwindset={'^(harness|verif_mem.*|verif_new.*)$': 40}, timeout=(300 if tier == 'quick' else 1200), native_vectors=300,
+                    c_defs={'VERIF_NEW_CAPN': 40, 'VERIF_CUT_HLL_AUX_GROW': None}, mem_gb=10))
     return qs
